@@ -138,6 +138,10 @@ func (c *Ctx) Begin(cs any) {
 	}
 	c.cur = b
 	c.Evals++
+	// leave a trace of the case being executed: if the code under test kills the process with an
+	// unrecoverable runtime error (stack overflow, fatal "unlock of unlocked mutex", deadlock),
+	// bin/check reports this case as the failing input
+	os.WriteFile(filepath.Join(c.OutDir, "current.json"), b, 0o644)
 	h := fnv.New64a()
 	h.Write(b)
 	c.distinct[h.Sum64()] = struct{}{}
@@ -220,6 +224,7 @@ func (c *Ctx) Finish() {
 	}
 	b, _ := json.MarshalIndent(res, "", " ")
 	os.WriteFile(filepath.Join(c.OutDir, "result.json"), b, 0o644)
+	os.Remove(filepath.Join(c.OutDir, "current.json"))
 }
 
 // ---- panics ----
